@@ -62,7 +62,7 @@ def make(rng, name, node=False, with_starts=None, with_ignore=None, with_cons=No
         # node names that mimic names the library derives internally (auxiliary nodes of the min-cost-flow helper, synthetic
         # source/sink, node-expansion suffixes, condensation ids): legal strings, no helper may confuse them with its own
         import gen
-        H = gen.mimic_names(rng, G0, 1.0)
+        H = gen.mimic_names(rng, G0, 1.0, gid="graph 1")
         mp = dict(zip(G0.nodes(), H.nodes()))
         if len(set(mp.values())) == len(mp):
             G0 = H; routes = [[mp[v] for v in r] for r in routes]
